@@ -164,3 +164,35 @@ Definition sval_eqb (a b : sval) : bool :=
   | SLic s t, SLic s' t' => str_eqb s s' && option_eqb str_eqb t t'
   | _, _ => false
   end.
+
+(** * The wider domain on which documents still SURVIVE (same paragraphs on re-reading,
+      identical second dump) although a license text is not carried exactly: its lines may
+      be whitespace-only or a lone '.', which read back as empty lines.  Everything else
+      as in [wf_copyright]. *)
+Definition lic_dom_weak (synopsis text : str) : bool :=
+  no_linebreak synopsis && negb (endswith [LF] text) && forallb no_linebreak (lines_of_text text).
+Definition license_ok_weak (syn : str) (text : option str) : bool :=
+  lic_dom_weak syn (otext text) && stripped syn.
+
+Definition value_ok_weak (k : kind) (v : sval) : bool :=
+  match k, v with
+  | KLicense, SLic syn text => license_ok_weak syn text
+  | _, _ => value_ok k v
+  end.
+
+Definition hop_ok_weak (o : shop) : bool :=
+  match o with
+  | SHSet i v => match nth_error header_kinds (N.to_nat i) with Some k => value_ok_weak k v | None => false end
+  | SHItem _ _ => hop_ok o
+  end.
+
+Definition para_ok_weak (p : spara) : bool :=
+  match p with
+  | PFiles (SList fs) (SStr c) (SLic syn text) cm =>
+      negb (is_empty fs) && ss_dom fs && freetext_ok c && license_ok_weak syn text && value_ok KText cm
+  | PLicense (SLic syn text) cm => license_ok_weak syn text && value_ok KText cm
+  | _ => false
+  end.
+
+Definition wf_copyright_weak (hops : list shop) (ps : list spara) : bool :=
+  forallb hop_ok_weak hops && forallb para_ok_weak ps.
